@@ -26,69 +26,63 @@ func init() {
 			ruleC05R9(r)
 			ruleC05R10(r)
 			ruleAlwaysCancels(r, "R11")
+			ruleAsTargetMatchesProducer(r, "R12")
 		},
 	})
 }
 
 func ruleC05R1(r *Run) {
-	r.Begin("R1", "token per attempt: in connectWire the call TokenSource.Token() dominates every dial and wire.Connect; ClientConnConfig.AccessToken derives only from that call's result; ConnectWithConfig and the retry closure of reconnect both call connectWire", 3)
+	r.Begin("R1", "token per attempt: every retry body (function literal handed to retry.Do) of package iscp that reaches wire.Connect also reaches TokenSource.Token() — the token is fetched inside the attempt, not once per outage; ClientConnConfig.AccessToken derives only from that call's result; ConnectWithConfig reaches both", 3)
 	p := r.P
-	cw := r.method("/iscp", "ConnConfig", "connectWire")
-	if cw == nil {
-		return
-	}
-	name := fnName(cw)
-	toks := findCalls(cw, false, "/iscp.TokenSource.Token")
-	if len(toks) != 1 {
-		r.Check(name+" asks the token source", false, p.pos(cw.Pos()), name, fmt.Sprintf("%d calls of TokenSource.Token in connectWire (want 1)", len(toks)))
-		return
-	}
-	tok := toks[0]
-	var later []ssa.Instruction
-	allInstrs(cw, func(ins ssa.Instruction) {
-		if isCallNamed(ins, "/wire.Connect") {
-			later = append(later, ins)
-			return
+	const tokenCall, connectCall = "/iscp.TokenSource.Token", "/wire.Connect"
+	// retry bodies
+	n := 0
+	for _, c := range p.moduleCalls("/internal/retry.Do", "/internal/retry.Retry.Do") {
+		fn := c.Parent()
+		if fnPkgPath(fn) != modPath+"/iscp" {
+			continue
 		}
-		if c, ok := ins.(*ssa.Call); ok {
-			if cf := c.Call.StaticCallee(); cf != nil && p.Analysed(cf) && (p.reachesCall(cf, 2, "/transport.Dialer.Dial", "/transport/reconnect.Dial")) {
-				later = append(later, ins)
-			}
-		}
-	})
-	ok := len(later) >= 2
-	for _, l := range later {
-		if !dominatesInstr(tok, l) {
-			ok = false
-		}
-	}
-	r.Check(name+" token before dial", ok, posOf(p, tok), name, fmt.Sprintf("Token() dominates the %d dial/connect call(s): %v", len(later), ok))
-	cc := r.named("/wire", "ClientConnConfig")
-	if cc != nil {
-		for _, lit := range literalsOf(cw, cc) {
-			v, has := lit.Fields["AccessToken"]
-			if !has {
-				r.Check(name+" AccessToken", false, p.pos(lit.Alloc.Pos()), name, "AccessToken not set")
+		cc := instrCall(c)
+		for _, a := range cc.Args {
+			cl := closureOf(a)
+			if cl == nil || !p.reachesCall(cl, 4, connectCall) {
 				continue
 			}
-			l := p.Leaves(v, provOpts{})
-			bad := leavesWithin(l, []string{"call:/iscp.TokenSource.Token", "field:/iscp.ConnConfig.TokenSource", "param:*"})
-			r.Check(name+" AccessToken", hasLeaf(l, "call:/iscp.TokenSource.Token") && len(bad) == 0, p.pos(lit.Alloc.Pos()), name, "AccessToken <- ["+joinLeaves(l)+"]; a cached token (field or global) would expire across reconnects")
+			n++
+			name := fnName(cl)
+			r.Check(name+" fetches the token inside the attempt", p.reachesCall(cl, 4, tokenCall), posOf(p, c), name, "a retry body that dials and connects without asking the token source: every attempt of one outage presents the same token (a one-time or expired token fails for as long as the outage lasts)")
 		}
 	}
-	// callers
-	sites := p.staticCallSites(cw)
-	inConnect, inReconnect := false, false
-	for _, s := range sites {
-		t := fnName(topFunc(s.Parent()))
-		if t == "iscp.ConnectWithConfig" {
-			inConnect = true
-		}
-		if t == "(*iscp.Conn).reconnect" {
-			inReconnect = true
+	if n == 0 {
+		r.Undecided("retry bodies that connect", "no function literal handed to retry.Do reaches wire.Connect")
+	}
+	// the token's way into the connect request
+	cc := r.named("/wire", "ClientConnConfig")
+	lits := 0
+	if cc != nil {
+		for _, lit := range p.allLiterals(cc) {
+			if fnPkgPath(lit.Fn) != modPath+"/iscp" {
+				continue
+			}
+			name := fnName(lit.Fn)
+			v, has := lit.Fields["AccessToken"]
+			if !has {
+				continue
+			}
+			lits++
+			l := p.Leaves(v, provOpts{ParamDepth: 2})
+			bad := leavesWithin(l, []string{"call:" + tokenCall, "field:/iscp.ConnConfig.TokenSource", "param:*", "recv*"})
+			r.Check(name+" AccessToken", hasLeaf(l, "call:"+tokenCall) && len(bad) == 0, p.pos(lit.Alloc.Pos()), name, "AccessToken <- ["+joinLeaves(l)+"]; a cached token (field or global) would expire across reconnects")
 		}
 	}
-	r.Check("connectWire reached from connect and reconnect", inConnect && inReconnect, p.pos(cw.Pos()), name, fmt.Sprintf("called from ConnectWithConfig: %v; from reconnect: %v", inConnect, inReconnect))
+	if lits == 0 {
+		r.Check("AccessToken is set", false, "", "", "no ClientConnConfig literal of package iscp sets AccessToken")
+	}
+	// first connect
+	if f := r.function("/iscp", "ConnectWithConfig"); f != nil {
+		name := fnName(f)
+		r.Check(name+" fetches a token and connects", p.reachesCall(f, 4, tokenCall) && p.reachesCall(f, 4, connectCall), p.pos(f.Pos()), name, "the first connect asks the token source and performs the wire connect")
+	}
 }
 
 func ruleC05R2(r *Run) {
@@ -333,9 +327,46 @@ func ruleC05R4(r *Run) {
 								for _, x := range b.Instrs {
 									if ret, isRet := x.(*ssa.Return); isRet {
 										any = true
-										cv, isC := retResults(ret)[0].(*ssa.Const)
-										if !isC || cv.Value == nil || cv.Value.ExactString() != "true" {
-											all = false
+										// a constant decides: true ends the retry. A computed value (the outcome of a
+										// classification helper applied to the error) is not decided here
+										rv := retResults(ret)[0]
+										if cv, isC := rv.(*ssa.Const); isC {
+											if cv.Value == nil || cv.Value.ExactString() != "true" {
+												all = false
+											}
+										} else {
+											// computed: accepted only when it is computed from the request's error
+											fromErr := false
+											for _, l := range p.Leaves(rv, provOpts{}) {
+												if strings.HasPrefix(l, "call:/wire.ClientConn.Send") && strings.HasSuffix(l, "ResumeRequest") {
+													fromErr = true
+												}
+											}
+											// or from the variable the request's error was stored into (a captured result variable)
+											errVars := map[ssa.Value]bool{}
+											for _, ev := range errResultsOf(call) {
+												if ev.Referrers() != nil {
+													for _, ref := range *ev.Referrers() {
+														if st, isSt := ref.(*ssa.Store); isSt && st.Val == ev {
+															errVars[st.Addr] = true
+														}
+													}
+												}
+											}
+											inner := rv
+											if u, isU := inner.(*ssa.UnOp); isU && u.Op == token.NOT {
+												inner = u.X
+											}
+											if cl, isCl := inner.(*ssa.Call); isCl {
+												for _, a := range cl.Call.Args {
+													if ld, isLd := a.(*ssa.UnOp); isLd && ld.Op == token.MUL && errVars[ld.X] {
+														fromErr = true
+													}
+												}
+											}
+											if !fromErr {
+												all = false
+											}
 										}
 										return
 									}
@@ -351,7 +382,7 @@ func ruleC05R4(r *Run) {
 						}
 					}
 				}
-				r.Check(fnName(cl)+" retry ends on a transport error", okEnd, posOf(p, rc), fnName(cl), "when the resume request itself fails (the connection died mid-exchange) the retry closure must return true; retrying on the same dead connection loops forever and the stream is never closed nor moved to the next connection")
+				r.Check(fnName(cl)+" retry ends on a transport error", okEnd, posOf(p, rc), fnName(cl), "when the resume request itself fails (the connection died mid-exchange) the retry closure must return true, or a value computed from that error by a classification helper (not decided further); retrying on the same dead connection loops forever and the stream is never closed nor moved to the next connection")
 			}
 		}
 	}
@@ -446,7 +477,7 @@ func ruleC05R6(r *Run) {
 			name := fnName(sup)
 			var waitC, resumeC ssa.Instruction
 			allInstrs(sup, func(ins ssa.Instruction) {
-				if isCallNamed(ins, "/iscp.connStatus.WaitUntil") {
+				if isCallNamed(ins, "/iscp.connStatus.WaitUntil", "/iscp.connStatus.WaitUntilOrClosed") {
 					if v, isC := constInt(instrCall(ins).Args[2]); isC && v == connected {
 						waitC = ins
 					}
@@ -655,5 +686,226 @@ func ruleC05R10(r *Run) {
 	})
 	if k == 0 {
 		r.Undecided(name+" flip", "no status call after the request in send can move Connected to Reconnecting")
+	}
+}
+
+// ruleAsTargetMatchesProducer: errors.As matches by the dynamic type of the error. An error that this module wraps as
+// *T is not found by a target of type T (and the other way round); the test is then constantly false and the branch
+// it guards (retry on a conflict, recognise a refusal) is dead. For every errors.As in the module the dynamic types
+// that reach its error argument — followed through parameters to the call sites, through helper results and local
+// variables — are collected where they are visible; a visible producer of *T with target T, or of T with target *T,
+// is a contradiction between producer and matcher.
+func ruleAsTargetMatchesProducer(r *Run, id string) {
+	r.Begin(id, "errors.As targets match how the error is produced: no error value that visibly reaches an errors.As (through locals, helper results and parameters) is produced as *T while the target is T, or as T while the target is *T", 1)
+	p := r.P
+	var dyn func(v ssa.Value, depth int, seen map[ssa.Value]bool, out map[string]types.Type)
+	dyn = func(v ssa.Value, depth int, seen map[ssa.Value]bool, out map[string]types.Type) {
+		if v == nil || depth > 7 || seen[v] {
+			return
+		}
+		seen[v] = true
+		switch x := v.(type) {
+		case *ssa.MakeInterface:
+			out[x.X.Type().String()] = x.X.Type()
+		case *ssa.ChangeInterface:
+			dyn(x.X, depth+1, seen, out)
+		case *ssa.Phi:
+			for _, e := range x.Edges {
+				dyn(e, depth+1, seen, out)
+			}
+		case *ssa.UnOp:
+			if x.Op == token.MUL {
+				addr := x.X
+				if fv, isFV := addr.(*ssa.FreeVar); isFV {
+					if b, ok := theClosures.bind[fv]; ok {
+						addr = b
+					}
+				}
+				if a, isA := addr.(*ssa.Alloc); isA {
+					// every store into the variable, in the declaring function and in its closures
+					withAnon(topFunc(a.Parent()), func(g *ssa.Function) {
+						allInstrs(g, func(ins ssa.Instruction) {
+							st, isSt := ins.(*ssa.Store)
+							if !isSt {
+								return
+							}
+							tgt := st.Addr
+							if fv, isFV := tgt.(*ssa.FreeVar); isFV {
+								if b, ok := theClosures.bind[fv]; ok {
+									tgt = b
+								}
+							}
+							if tgt == ssa.Value(a) {
+								dyn(st.Val, depth+1, seen, out)
+							}
+						})
+					})
+				}
+			}
+		case *ssa.Extract:
+			if c, isC := x.Tuple.(*ssa.Call); isC {
+				if cal := c.Call.StaticCallee(); cal != nil && p.Analysed(cal) {
+					allInstrs(cal, func(ins ssa.Instruction) {
+						if ret, isRet := ins.(*ssa.Return); isRet && x.Index < len(ret.Results) {
+							dyn(ret.Results[x.Index], depth+1, seen, out)
+						}
+					})
+				}
+			}
+		case *ssa.Call:
+			if cal := x.Call.StaticCallee(); cal != nil && p.Analysed(cal) {
+				allInstrs(cal, func(ins ssa.Instruction) {
+					if ret, isRet := ins.(*ssa.Return); isRet && len(ret.Results) == 1 {
+						dyn(ret.Results[0], depth+1, seen, out)
+					}
+				})
+			}
+		case *ssa.Parameter:
+			fn := x.Parent()
+			idx := -1
+			for i, q := range fn.Params {
+				if q == x {
+					idx = i
+				}
+			}
+			for _, site := range p.staticCallSites(fn) {
+				if cc := instrCall(site); cc != nil && idx >= 0 && idx < len(cc.Args) {
+					dyn(cc.Args[idx], depth+1, seen, out)
+				}
+			}
+		}
+	}
+	n := 0
+	for _, fn := range p.Funcs {
+		if fn.Blocks == nil || !p.Analysed(fn) {
+			continue
+		}
+		name := fnName(fn)
+		k := 0
+		allInstrs(fn, func(ins ssa.Instruction) {
+			c, ok := ins.(*ssa.Call)
+			if !ok || !isCallNamed(c, "errors.As", "/errors.As") || len(c.Call.Args) < 2 {
+				return
+			}
+			// target: any(&t)
+			var tt types.Type
+			if mi, isMI := c.Call.Args[1].(*ssa.MakeInterface); isMI {
+				if pt, isP := mi.X.Type().Underlying().(*types.Pointer); isP {
+					tt = pt.Elem()
+				}
+			}
+			if tt == nil {
+				return
+			}
+			if _, isIface := tt.Underlying().(*types.Interface); isIface {
+				return
+			}
+			k++
+			n++
+			out := map[string]types.Type{}
+			dyn(c.Call.Args[0], 0, map[ssa.Value]bool{}, out)
+			bad := ""
+			for s, pt := range out {
+				if ptr, isP := pt.(*types.Pointer); isP && types.Identical(ptr.Elem(), tt) {
+					bad = "produced as " + s + ", matched as " + tt.String()
+				}
+				if ptr, isP := tt.(*types.Pointer); isP && types.Identical(ptr.Elem(), pt) {
+					bad = "produced as " + s + ", matched as " + tt.String()
+				}
+			}
+			r.Check(fmt.Sprintf("%s errors.As#%d target matches the producers in sight", name, k), bad == "", posOf(p, c), name, "an error "+bad+": errors.As compares dynamic types, this match can never succeed for that error and the branch it guards is dead")
+		})
+	}
+	r.Stat("errors_as_sites", n)
+	if n == 0 {
+		r.Check("errors.As sites", true, "", "", "no errors.As with a concrete target in the module")
+	}
+}
+
+// ruleC05R13: the stream watcher is edge-triggered. The errgroup member of a stream's run that waits on the
+// connection's status condition must notice an outage that is already over when it gets to look: a redial that
+// completes (Reconnecting -> Connected) before the watcher is scheduled leaves a level test "is it Reconnecting now?"
+// false for ever, the run is never ended and the stream stays on the dead wire connection. The loop condition has to
+// involve the connection generation (connStatus.connects) as well.
+func ruleC05R13(r *Run) {
+	r.Begin("R13", "stream watchers are edge-triggered: in package iscp, every wait loop on the connection status condition that tests for Reconnecting (the watcher of a stream's run) also reads the connection generation connStatus.connects inside the loop, directly or through a connStatus method", 2)
+	p := r.P
+	reconnecting, ok := p.enumConst("/iscp", "connStatusReconnecting")
+	holder := r.named("/iscp", "connStatus")
+	if !ok || holder == nil {
+		r.Undecided("anchors", "connStatusReconnecting or connStatus not found")
+		return
+	}
+	const gen = "/iscp.connStatus.connects"
+	var readsGen func(fn *ssa.Function, depth int) bool
+	readsGen = func(fn *ssa.Function, depth int) bool {
+		if fn == nil || fn.Blocks == nil || depth > 2 {
+			return false
+		}
+		found := false
+		allInstrs(fn, func(ins ssa.Instruction) {
+			if u, isU := ins.(*ssa.UnOp); isU && u.Op == token.MUL && fieldKeyOfAddr(u.X) == gen {
+				found = true
+			}
+			if c, isC := ins.(*ssa.Call); isC && !found {
+				if cal := c.Call.StaticCallee(); cal != nil && cal.Signature.Recv() != nil && namedOf(cal.Signature.Recv().Type()) == holder && readsGen(cal, depth+1) {
+					found = true
+				}
+			}
+		})
+		return found
+	}
+	n := 0
+	for _, fn := range p.Funcs {
+		if fnPkgPath(fn) != modPath+"/iscp" || fn.Blocks == nil {
+			continue
+		}
+		// not the status holder's own waits
+		if t := topFunc(fn); t.Signature.Recv() != nil && namedOf(t.Signature.Recv().Type()) == holder {
+			continue
+		}
+		allInstrs(fn, func(ins ssa.Instruction) {
+			c, isC := ins.(*ssa.Call)
+			if !isC {
+				return
+			}
+			if op, _ := classifyLockCall(&c.Call); op != opWait || !inLoop(c) {
+				return
+			}
+			loop := loopBlocks(c.Block())
+			level, genRead := false, false
+			for b := range loop {
+				for _, x := range b.Instrs {
+					cc, isCall := x.(*ssa.Call)
+					if !isCall {
+						if u, isU := x.(*ssa.UnOp); isU && u.Op == token.MUL && fieldKeyOfAddr(u.X) == gen {
+							genRead = true
+						}
+						continue
+					}
+					cal := cc.Call.StaticCallee()
+					if cal == nil || cal.Signature.Recv() == nil || namedOf(cal.Signature.Recv().Type()) != holder {
+						continue
+					}
+					for _, a := range cc.Call.Args[1:] {
+						if v, isK := constInt(a); isK && v == reconnecting {
+							level = true
+						}
+					}
+					if readsGen(cal, 0) {
+						genRead = true
+					}
+				}
+			}
+			if !level {
+				return
+			}
+			n++
+			name := fnName(fn)
+			r.Check(name+" watcher also looks at the connection generation", genRead, posOf(p, c), name, "the wait loop ends only while the status IS Reconnecting; a redial that is over before this goroutine looks is never noticed and the stream is not resumed on the new connection")
+		})
+	}
+	if n == 0 {
+		r.Undecided("stream watchers", "no wait loop testing for Reconnecting found outside the status holder")
 	}
 }
